@@ -106,72 +106,95 @@ func (p *Prog) adoptFresh() {
 		if h.Decl.Recv != nil && implementsLocalInterface(h) {
 			continue
 		}
-		var use *ast.Ident
-		var user *Func
-		n := 0
+		type useSite struct {
+			user    *Func
+			call    *ast.CallExpr
+			spawned bool
+			viaWG   bool
+		}
+		var sites []useSite
+		okUses := true
 		for _, f := range p.funcs {
 			info := f.Info()
 			walkOwn(f.Body, func(nd ast.Node) bool {
-				if id, ok := nd.(*ast.Ident); ok {
-					if u := info.Uses[id]; u != nil && sameObjRaw(u, h.Obj) {
-						n++
-						use, user = id, f
+				id, ok := nd.(*ast.Ident)
+				if !ok {
+					return true
+				}
+				if u := info.Uses[id]; u == nil || !sameObjRaw(u, h.Obj) {
+					return true
+				}
+				// the use must be the callee of a call (or a method value handed to WaitGroup.Go)
+				var fun ast.Expr = id
+				if se, ok := p.parents[id].(*ast.SelectorExpr); ok && se.Sel == id {
+					fun = se
+				}
+				par := p.parents[fun]
+				for {
+					pe, ok := par.(*ast.ParenExpr)
+					if !ok {
+						break
+					}
+					fun, par = pe, p.parents[pe]
+				}
+				call, ok := par.(*ast.CallExpr)
+				if !ok {
+					okUses = false
+					return true
+				}
+				us := useSite{user: f, call: call}
+				if Unparen(call.Fun) != Unparen(fun) {
+					if CalleeName(info, call) == "(*sync.WaitGroup).Go" && len(call.Args) == 1 && Unparen(call.Args[0]) == Unparen(fun) {
+						us.spawned, us.viaWG = true, true
+					} else {
+						okUses = false
+						return true
 					}
 				}
+				switch p.parents[call].(type) {
+				case *ast.DeferStmt:
+					okUses = false
+				case *ast.GoStmt:
+					us.spawned = true
+				}
+				sites = append(sites, us)
 				return true
 			})
 		}
-		if n != 1 || user == nil || user.Pkg != h.Pkg {
+		if !okUses || len(sites) == 0 {
 			continue
 		}
-		// the use must be the callee of a call
-		var fun ast.Expr = use
-		if se, ok := p.parents[use].(*ast.SelectorExpr); ok && se.Sel == use {
-			fun = se
-		}
-		par := p.parents[fun]
-		for {
-			pe, ok := par.(*ast.ParenExpr)
-			if !ok {
-				break
+		// one use of any admissible kind; several uses only as plain calls within one declared function
+		same := true
+		for _, us := range sites {
+			if us.user.Pkg != h.Pkg || us.user.SynRoot() != sites[0].user.SynRoot() || (len(sites) > 1 && us.spawned) {
+				same = false
 			}
-			fun, par = pe, p.parents[pe]
-		}
-		call, ok := par.(*ast.CallExpr)
-		if !ok {
-			continue
-		}
-		spawned, viaWG := false, false
-		if Unparen(call.Fun) != Unparen(fun) {
-			// a method value handed to WaitGroup.Go is a spawn
-			if CalleeName(user.Info(), call) == "(*sync.WaitGroup).Go" && len(call.Args) == 1 && Unparen(call.Args[0]) == Unparen(fun) {
-				spawned, viaWG = true, true
-			} else {
-				continue
+			for u := us.user; u != nil; u = u.Parent {
+				if u == h {
+					same = false // recursion
+				}
 			}
 		}
-		switch p.parents[call].(type) {
-		case *ast.DeferStmt:
+		if !same {
 			continue
-		case *ast.GoStmt:
-			spawned = true
 		}
-		// no recursion: the user must not be (inside) the helper
-		inside := false
-		for u := user; u != nil; u = u.Parent {
-			if u == h {
-				inside = true
-			}
-		}
-		if inside {
-			continue
+		user := sites[0].user
+		if len(sites) > 1 {
+			user = sites[0].user.SynRoot()
 		}
 		h.Adopter = user
+		h.adoptedSpawn = len(sites) == 1 && sites[0].spawned
 		adopted[h] = true
-		user.inlined = append(user.inlined, inlineSite{call: call, h: h, spawned: spawned})
-		if !viaWG {
-			bindArgs(user, call, h)
+		for _, us := range sites {
+			us.user.inlined = append(us.user.inlined, inlineSite{call: us.call, h: h, spawned: us.spawned})
 		}
+		if len(sites) == 1 && !sites[0].viaWG {
+			bindArgs(sites[0].user, sites[0].call, h)
+		} else if len(sites) > 1 {
+			bindCommonArgs(h, sites[0].user, sites[0].call, func(i int) (*Func, *ast.CallExpr) { return sites[i].user, sites[i].call }, len(sites))
+		}
+		continue
 	}
 	if len(adopted) == 0 {
 		return
@@ -283,6 +306,7 @@ func (p *Prog) adoptFresh() {
 			alias := fmt.Sprintf("%s$%d", f.Name, gone[i].ord)
 			sp[i].h.LitAlias = alias
 			sp[i].h.spawnCall = sp[i].call
+			sp[i].h.Name = alias // keyed like the literal it replaces; its declared name still resolves through byName
 			p.byName[alias] = sp[i].h
 			f.Lits = append(f.Lits, sp[i].h)
 			Renames = append(Renames, "spawned helper "+sp[i].h.Name+" = pinned literal "+alias)
@@ -466,7 +490,7 @@ func bindArgs(user *Func, call *ast.CallExpr, h *Func) {
 
 // spliceInlined rewrites the graph of f in place: every called adopted helper's graph is
 // inserted at its call.  It returns the helpers spliced (for condition and location indexing).
-func (f *Func) spliceInlined(g *cfg.CFG, mayReturn func(*ast.CallExpr) bool, depth int) []*Func {
+func (f *Func) spliceInlined(g *cfg.CFG, mayReturn func(*ast.CallExpr) bool, depth int, siteOf map[*cfg.Block]inlineSite) []*Func {
 	var done []*Func
 	if depth > 3 {
 		return nil
@@ -575,6 +599,7 @@ func (f *Func) spliceInlined(g *cfg.CFG, mayReturn func(*ast.CallExpr) bool, dep
 		for _, hb := range hg.Blocks {
 			hb.Index = next
 			next++
+			siteOf[hb] = site
 			if !hb.Live || len(hb.Succs) != 0 {
 				continue
 			}
@@ -641,3 +666,117 @@ func (f *Func) allInlineSites() []inlineSite {
 	rec(f, 0)
 	return out
 }
+
+// bindCommonArgs identifies a parameter of a helper called from several places with its
+// argument when every call passes the same variable.
+func bindCommonArgs(h *Func, _ *Func, _ *ast.CallExpr, site func(i int) (*Func, *ast.CallExpr), n int) {
+	if h.Type.Params == nil {
+		return
+	}
+	hinfo := h.Info()
+	argObj := func(user *Func, e ast.Expr) types.Object {
+		a := Unparen(e)
+		if u, ok := a.(*ast.UnaryExpr); ok && u.Op == token.AND {
+			a = Unparen(u.X)
+		}
+		if id, ok := a.(*ast.Ident); ok {
+			if ao, ok := user.Info().Uses[id].(*types.Var); ok && !ao.IsField() {
+				return Rep(ao)
+			}
+		}
+		return nil
+	}
+	bindAll := func(param *ast.Ident, get func(call *ast.CallExpr) ast.Expr) {
+		po := hinfo.Defs[param]
+		if po == nil || param.Name == "_" {
+			return
+		}
+		var common types.Object
+		for i := 0; i < n; i++ {
+			user, call := site(i)
+			e := get(call)
+			if e == nil {
+				return
+			}
+			o := argObj(user, e)
+			if o == nil || (common != nil && o != common) {
+				return
+			}
+			common = o
+		}
+		if common != nil {
+			objAlias[po] = common
+		}
+	}
+	if h.Decl.Recv != nil && len(h.Decl.Recv.List) == 1 && len(h.Decl.Recv.List[0].Names) == 1 {
+		bindAll(h.Decl.Recv.List[0].Names[0], func(call *ast.CallExpr) ast.Expr {
+			if se, ok := Unparen(call.Fun).(*ast.SelectorExpr); ok {
+				return se.X
+			}
+			return nil
+		})
+	}
+	idx := 0
+	sig, _ := h.Obj.Type().(*types.Signature)
+	for _, fl := range h.Type.Params.List {
+		if len(fl.Names) == 0 {
+			idx++
+			continue
+		}
+		for _, id := range fl.Names {
+			k := idx
+			if !(sig != nil && sig.Variadic() && k == sig.Params().Len()-1) {
+				bindAll(id, func(call *ast.CallExpr) ast.Expr {
+					if k < len(call.Args) {
+						return call.Args[k]
+					}
+					return nil
+				})
+			}
+			idx++
+		}
+	}
+}
+
+// ArgAt resolves a parameter (or the receiver) of a spliced helper to the argument it is
+// bound to at the call whose copy of the helper contains location l.
+func (c *CFG) ArgAt(l Loc, param types.Object) ast.Expr {
+	site, ok := c.siteOf[l.B]
+	if !ok || param == nil {
+		return nil
+	}
+	h := site.h
+	hinfo := h.Info()
+	if h.Decl.Recv != nil && len(h.Decl.Recv.List) == 1 && len(h.Decl.Recv.List[0].Names) == 1 {
+		if hinfo.Defs[h.Decl.Recv.List[0].Names[0]] == param {
+			if se, ok := Unparen(site.call.Fun).(*ast.SelectorExpr); ok {
+				return se.X
+			}
+		}
+	}
+	idx := 0
+	if h.Type.Params != nil {
+		for _, fl := range h.Type.Params.List {
+			if len(fl.Names) == 0 {
+				idx++
+				continue
+			}
+			for _, id := range fl.Names {
+				if hinfo.Defs[id] == param && idx < len(site.call.Args) {
+					return site.call.Args[idx]
+				}
+				idx++
+			}
+		}
+	}
+	return nil
+}
+
+// GuardedAt is Guarded for exactly the location l (not the other standing places of its node).
+func (c *CFG) GuardedAt(l Loc, pred func(Fact) bool) bool {
+	ok, _ := c.guardedFromExact(c.Entry(), l, pred)
+	return ok
+}
+
+// DominatingCondsAt is DominatingConds for exactly the location l.
+func (c *CFG) DominatingCondsAt(l Loc) []CondEdge { return c.dominatingCondsExact(l) }
